@@ -696,6 +696,15 @@ func (x *Exec) ptrInfoOf(v Val) *PtrInfo {
 		if _, ok := isStruct(p.Elem()); ok {
 			return &PtrInfo{Kind: PObj, T: p.Elem()}
 		}
+		// a pointer to a named slice type (the *multiSegmentArena, *singleSegmentArena receivers):
+		// the same box class that `new(T)` uses, so that a value stored through the pointer by one
+		// function is what a load through it yields later.  Assumes such a pointer never points into
+		// a struct field or an array element of that named type (there is none in this code base).
+		if nt, ok := p.Elem().(*types.Named); ok && len(v.L) > 0 {
+			if _, ok := nt.Underlying().(*types.Slice); ok {
+				return &PtrInfo{Kind: PLoc, T: p.Elem(), Loc: Loc{Class: "b:" + typeKey(p.Elem()), Idx: []*Term{v.L[0]}}}
+			}
+		}
 		return &PtrInfo{Kind: POpaque, T: p.Elem()}
 	}
 	return &PtrInfo{Kind: POpaque}
